@@ -219,7 +219,20 @@ func (c19) Gen(seed uint64, tier string) *Scenario {
 	ps.Statements = m.Stmts
 	ps.Flags = m.Flags
 	// fault plan
-	switch r.Intn(10) {
+	switch r.Intn(11) {
+	case 10:
+		// the device behind standard output fills up at the n-th write
+		m.Fault = "stdout"
+		ps.StdoutFailAt = r.Range(1, 5)
+		ps.StdoutFailAll = r.Bool(0.5)
+		ps.Quiet = r.Bool(0.5)
+		ps.Format = r.PickS("CSV", "CSV", "JSONL", "JSON", "FIXED", "TEXT", "LTSV")
+		if r.Bool(0.5) {
+			// as a non-interactive run: the first error ends the program and the
+			// deferred rollback reports what it restores
+			ps.Shell = false
+			ps.Program = strings.Join(m.Stmts, "\n")
+		}
 	case 0, 1:
 		m.Fault = "none"
 	case 2, 3:
@@ -277,6 +290,7 @@ func (c19) Eval(t *testing.T, c *Case, dec func(int) *Decider) *Outcome {
 		switch {
 		case res.Hang != "":
 			o.viol(prop, "never-hangs", "hang", fmt.Sprintf("[%s] %s", label, res.Hang))
+			return // nothing else of an unfinished run is judged
 		case res.LimitHit:
 			o.viol(prop, "never-hangs", "step-limit", fmt.Sprintf("[%s] no termination within %d scheduler steps", label, sc.MaxSteps))
 		case res.BubbleErr != "":
@@ -288,7 +302,13 @@ func (c19) Eval(t *testing.T, c *Case, dec func(int) *Decider) *Outcome {
 		if p.Fatal {
 			o.viol(prop, "no-internal-error", "fatal-error:"+errClass(p.ErrText), fmt.Sprintf("[%s] internal Fatal Error: %s", label, p.ErrText))
 		}
-		if p.ExitCode != 0 && !p.IsQueryError {
+		if p.ExitCode != 0 && !p.IsQueryError && meta.Fault == "stdout" && p.StdoutFaults > 0 && strings.Contains(p.ErrText, "no space left on device") {
+			// csvq passes the operating system's error of a failed write to
+			// standard output on unchanged, with the general code 1 ("errors inside
+			// the csvq") instead of 16; both are documented codes, the message names
+			// the failure: accepted (noted in DESIGN.md as an observation)
+			o.Stats.probe("stdout-write-error-reported-raw")
+		} else if p.ExitCode != 0 && !p.IsQueryError {
 			o.viol(prop, "documented-error", "undocumented-error-type:"+p.ErrType, fmt.Sprintf("[%s] error that is not a csvq error with a code: %s: %s", label, p.ErrType, p.ErrText))
 		}
 		for _, l := range strings.Split(p.Stdout+"\n"+p.Stderr, "\n") {
@@ -402,6 +422,9 @@ func (c19) Shrinks(c *Case) []*Case {
 		mustUnJSON(cand.Scenario.Meta["workload"], &m)
 		m.Stmts = append(m.Stmts[:i:i], m.Stmts[i+1:]...)
 		cand.Scenario.Procs[0].Statements = m.Stmts
+		if !cand.Scenario.Procs[0].Shell {
+			cand.Scenario.Procs[0].Program = strings.Join(m.Stmts, "\n")
+		}
 		cand.Scenario.Meta["workload"] = mustJSON(&m)
 		out = append(out, cand)
 	}
